@@ -329,6 +329,35 @@ func (x *Exec) native(name string, fn *ssa.Function, args []Value) (Value, bool)
 			return FP(math.Trunc(t.f())), true
 		}
 		return mkOp("fp.roundToIntegral RTZ", Sort{FP: true}, "fp.trunc", 0, t), true
+	case "math.Pow", "math.Mod", "math.Atan2":
+		a, b := args[0].(*Term), args[1].(*Term)
+		if a.isC && b.isC {
+			switch name {
+			case "math.Pow":
+				return FP(math.Pow(a.f(), b.f())), true
+			case "math.Mod":
+				return FP(math.Mod(a.f(), b.f())), true
+			}
+			return FP(math.Atan2(a.f(), b.f())), true
+		}
+		uf := "uf_" + strings.ToLower(name[5:])
+		return mkOp(uf, Sort{FP: true}, "uf", 0, a, b), true // uninterpreted: same arguments, same result
+	case "math.Log", "math.Exp", "math.Sin", "math.Cos", "math.Sqrt":
+		a := args[0].(*Term)
+		if a.isC {
+			switch name {
+			case "math.Log":
+				return FP(math.Log(a.f())), true
+			case "math.Exp":
+				return FP(math.Exp(a.f())), true
+			case "math.Sin":
+				return FP(math.Sin(a.f())), true
+			case "math.Cos":
+				return FP(math.Cos(a.f())), true
+			}
+			return FP(math.Sqrt(a.f())), true
+		}
+		return mkOp("uf_"+strings.ToLower(name[5:]), Sort{FP: true}, "uf", 0, a), true
 	case "math.NaN":
 		return FP(math.NaN()), true
 	case "math.Inf":
